@@ -17,8 +17,10 @@ META = dict(
                "LL_CONNECTION_UPDATE_IND - deferred, waiting through events and missed events, applied at its instant with the transmit window "
                "covered and the new interval, consumed by the monitor's applied_update, further updates following -, any pattern of missed "
                "events, own accuracy <= 500 ppm, nothing left in the receive queue (C22_monitor_accepts_partial, C22_event_at_the_instant; "
-               "simulation proof coq/LL/LLProofsC22Sim.v). Not proved: the monitor statement for a refused update / an update invalid at its "
-               "instant (link dropped), an instant on a missed event, PDUs delivered while an update waits, channel map / PHY update / terminate / "
+               "simulation proof coq/LL/LLProofsC22Sim.v), also when the instant falls on a missed event, when the update is refused at delivery "
+               "(0x28) or found invalid at its instant by a connection event (link dropped, run continues). Not proved / outside: an invalid "
+               "update whose instant falls on a missed event (the monitor rejects that trace: known finding, pinned as an Example), an update "
+               "delivered and applied within one end_event(), PDUs delivered while an update waits, channel map / PHY update / terminate / "
                "data PDUs, encryption support, API calls (C22_monitor_accepts_all_full stays a Definition; tested every run). "
                "What the radio does with the "
                "window (HFXO start-up, timer resolution) is outside.",
